@@ -1002,7 +1002,9 @@ impl<'a, 'src: 'a> Compiler<'a, 'src> {
       .offset_line(offset as usize)
       .expect("Line offset out of bounds");
 
-    self.write_instruction(op_code, line as u16 + 1);
+    // the line table holds u16, lines past the last representable one report it
+    let line = u16::try_from(line + 1).unwrap_or(u16::MAX);
+    self.write_instruction(op_code, line);
   }
 
   /// write instruction to the current function
